@@ -23,7 +23,8 @@ type c05Cell struct {
 	Slot  string `json:"slot,omitempty"`
 	Sort  bool   `json:"sort,omitempty"`
 	Stale bool   `json:"stale,omitempty"`
-	E3    bool   `json:"e3"` // marks the case as an E3 cell for replay dispatch
+	E3    bool   `json:"e3"`            // marks the case as an E3 cell for replay dispatch
+	How   string `json:"how,omitempty"` // how the environment announces (or denies) CI, `;`-separated assignments; "" = CI=true when CI is set
 }
 
 func runC05E3(tier, scratch, replay string, nworkers int) *merged {
@@ -45,6 +46,24 @@ func runC05E3(tier, scratch, replay string, nworkers int) *merged {
 			}
 		}
 	}
+	// other ways an environment says "this is CI" (the reference is the detection rule of the ciinfo dependency: CI is not the
+	// literal `false`, and a vendor variable or one of the generic variables - CI, BUILD_NUMBER, RUN_ID ... - is present) and "this is not"
+	for _, h := range []struct {
+		how string
+		ci  bool
+	}{{"CI=0;GITHUB_ACTIONS=true", true}, {"CI=False;GITHUB_ACTIONS=true", true}, {"CI=0;BUILD_NUMBER=17", true}, {"CI=1", true}, {"CI=", true}, {"RUN_ID=x", true},
+		{"CI=false;GITHUB_ACTIONS=true", false}, {"CI=false;BUILD_NUMBER=17", false}, {"NOT_CI=true", false}} {
+		for _, env := range []string{"", "true"} {
+			for _, opt := range []string{"default", "update-true"} {
+				for _, api := range []string{"snap", "sjson"} {
+					for _, slot := range []string{"missing", "different"} {
+						cells = append(cells, c05Cell{Kind: "call", CI: h.ci, Env: env, Opt: opt, API: api, Slot: slot, E3: true, How: h.how})
+					}
+				}
+			}
+			cells = append(cells, c05Cell{Kind: "clean", CI: h.ci, Env: env, Sort: true, Stale: true, E3: true, How: h.how})
+		}
+	}
 	m.bounds["cells"] = len(cells)
 	ws, err := e3Workers(scratch, nworkers)
 	if err != nil {
@@ -57,7 +76,12 @@ func runC05E3(tier, scratch, replay string, nworkers int) *merged {
 		os.RemoveAll(snapDir)
 		envOf := func(ci bool, upd string) map[string]string {
 			e := map[string]string{}
-			if ci {
+			if c.How != "" {
+				for _, kv := range strings.Split(c.How, ";") {
+					k, v, _ := strings.Cut(kv, "=")
+					e[k] = v
+				}
+			} else if ci {
 				e["CI"] = "true"
 			}
 			if upd != "" {
